@@ -264,6 +264,76 @@ func final(x *harness.X, res *rt.Result) {
 	}
 }
 
+// dupBody: ids are chosen by the application and need not be unique: two consecutive messages
+// with the same id (and different content), then one with another id, each way.
+func dupBody(kind string) func(x *harness.X) {
+	return func(x *harness.X) {
+		lib.Reset()
+		s := &st{cli: side{name: "client"}, srv: side{name: "server"}}
+		x.Vars["st"] = s
+		buf := 64 << 10
+		if kind == "inproc" {
+			buf = rt.Choose(2)
+		}
+		ct, stp, _, _ := lib.Transports(kind, buf, nil)
+		cc, sc, err := lib.EstablishedPair(ct, stp, rt.Choose(2))
+		if err != nil {
+			x.Failf("setup", "%v", err)
+			rt.Stop()
+		}
+		ctx, cancel := context.WithCancel(context.Background())
+		defer cancel()
+		rt.BeginExplore()
+		go consume(ctx, x, &s.cli, cc)
+		go consume(ctx, x, &s.srv, sc)
+		sendAll := func(ch chanAPI, who string) {
+			for i, m := range [][2]string{{"same", "first"}, {"same", "second"}, {"other", "third"}} {
+				msg := lib.Msg(m[0], m[1])
+				r := rec{sender: who, kind: 0, id: fmt.Sprintf("%s#%d", m[0], i), canon: lib.Canon(msg)}
+				r.err = ch.SendMessage(ctx, msg)
+				s.sent = append(s.sent, r)
+			}
+		}
+		go sendAll(cc, "c1")
+		go sendAll(sc, "s1")
+		if kind == "tcp" {
+			time.Sleep(12 * time.Second)
+		}
+		rt.Quiesce()
+		rt.EndExplore()
+		s.ccState, s.scState = cc.State(), sc.State()
+		rt.Stop()
+	}
+}
+
+func dupFinal(x *harness.X, res *rt.Result) {
+	if res.Crash != "" {
+		x.Failf("crash:"+res.CrashSite, "%s", strings.SplitN(res.Crash, "\n", 2)[0])
+		return
+	}
+	s, _ := x.Vars["st"].(*st)
+	if s == nil || s.ccState != lime.SessionStateEstablished || s.scState != lime.SessionStateEstablished {
+		return
+	}
+	for _, d := range []struct {
+		to   *side
+		from string
+	}{{&s.srv, "c1"}, {&s.cli, "s1"}} {
+		var want, got []string
+		for _, r := range s.sent {
+			if r.sender == d.from && r.err == nil {
+				want = append(want, r.canon)
+			}
+		}
+		for _, r := range d.to.delivered {
+			got = append(got, r.canon)
+		}
+		if strings.Join(got, " ") != strings.Join(want, " ") {
+			x.Failf("repeated-id:"+d.to.name, "%s received %v, sent (all with success) %v: messages that repeat an id are still messages", d.to.name, got, want)
+		}
+	}
+}
+
 func main() {
 	base := rt.Options{NoExplore: true, Horizon: 200 * time.Second, MaxSteps: 80000, BoundAll: true, NoTimerDeviation: true}
 	stall := base
@@ -274,7 +344,7 @@ func main() {
 	harness.Main(harness.Check{
 		Property: "C04",
 		Level:    "model_checking",
-		Rule:     "workloads: client sender with 2 envelopes and server sender with 1+1 envelopes, kinds from {small message, message larger than the pipe, notification, request, unmatched response} (125 combinations) x channel buffer {0,1} x transport queue {0,1} (in-process) / pipe capacity {64B, 64KiB} (TCP, WebSocket), optional second client sender; one draining consumer per side; all schedules within the deviation bound (delay bounding); the stall scenarios additionally let an I/O deadline fire early (write stall); oracle: delivered multiset == successfully sent multiset, equal content, per-(sender,kind) order; distinct outcome = distinct observation log",
+		Rule:     "workloads: client sender with 2 envelopes and server sender with 1+1 envelopes, kinds from {small message, message larger than the pipe, notification, request, unmatched response} (125 combinations) x channel buffer {0,1} x transport queue {0,1} (in-process) / pipe capacity {64B, 64KiB} (TCP, WebSocket), optional second client sender; one draining consumer per side; all schedules within the deviation bound (delay bounding); the stall scenarios additionally let an I/O deadline fire early (write stall); a scenario with messages repeating an id; oracle: delivered multiset == successfully sent multiset, equal content, per-(sender,kind) order; distinct outcome = distinct observation log",
 		Assume:   []string{"WebSocket: the real websocketTransport over gorilla connections opened by a real handshake on a virtual pipe (the listener's HTTP server and wss are not part of it); TLS is covered by C09/C12", "payload sizes up to 120 bytes against a 64-byte pipe stand for 'larger than the socket buffer'"},
 		Scenarios: []harness.Scenario{
 			mk("inproc", "inproc", 0, false, base, 1, 2),
@@ -286,6 +356,8 @@ func main() {
 			mk("ws/cap64B/slow-consumer", "ws", 64, false, base, 0, 1),
 			mk("tcp/cap64B/slow-consumer", "tcp", 64, false, base, 0, 1),
 			mk("inproc/slow-consumer", "inproc", 0, false, base, 0, 1),
+			{Name: "repeated-ids/inproc", Opt: base, Quick: 1, Thorough: 2, Prune: true, Body: dupBody("inproc"), Final: dupFinal},
+			{Name: "repeated-ids/tcp", Opt: base, Quick: 1, Thorough: 2, Prune: true, Body: dupBody("tcp"), Final: dupFinal},
 			mk("inproc/2senders", "inproc", 0, true, base, -1, 1),
 			mk("tcp/cap64B/2senders", "tcp", 64, true, base, -1, 1),
 		},
